@@ -31,7 +31,7 @@ CHECK_DEADLOCK FALSE
 """
 ALL_INVS = "TypeOK IndexCoverageSound SerialEquivalence NoDoubleImage WellFormed RowIdUnique RowIdsNeverReused VersionColumnsCorrect RestoreEqualsOld RewritePreservesContents"
 ALL_PROPS = "PROPERTIES VersionsImmutable RowIdStable"
-ALL_OPS = ["append", "delete", "update", "upsert", "compact", "overwrite", "restore", "checkout"]
+ALL_OPS = ["append", "delete", "update", "upsert", "colupdate", "compact", "overwrite", "restore", "checkout"]
 
 TRACE_CFG = """SPECIFICATION TraceSpec
 INVARIANT Report
@@ -63,7 +63,7 @@ def cfg(ids, vals, maxv, maxops, stable, opkinds, invariants=ALL_INVS, props=ALL
                          invariants=invariants, props=props)
 
 
-def hist_to_scenario(hist, sid, stable, reread=False, tail_steps=None, knobs=None, index_type="btree"):
+def hist_to_scenario(hist, sid, stable, reread=False, tail_steps=None, knobs=None, index_type="btree", extra_col=False):
     """TLC history (list of step records) -> driver scenario."""
     steps = []
     init = hist[0]
@@ -89,6 +89,9 @@ def hist_to_scenario(hist, sid, stable, reread=False, tail_steps=None, knobs=Non
         elif op == "upsert":
             steps.append({"op": "merge_insert", "h": h, "src": [[st["id"], st["val"]]],
                           "matched": "update_all", "not_matched": "insert_all"})
+        elif op == "colupdate":
+            steps.append({"op": "merge_insert", "h": h, "cols": ["id", "val"], "src": [[i, st["val"]] for i in sorted(st["ids"])],
+                          "matched": "update_all", "not_matched": "do_nothing", "in_place": 1})
         elif op == "compact":
             steps.append({"op": "compact", "h": h})
         elif op == "restore":
@@ -101,6 +104,17 @@ def hist_to_scenario(hist, sid, stable, reread=False, tail_steps=None, knobs=Non
         # time travel: every version is read again at the end (C06)
         for v in range(1, 9):
             steps.append({"op": "reread", "v": v})
+    if any(st["op"] == "colupdate" for st in hist[1:]) or extra_col:
+        # an in-place column rewrite needs a column that the source does not carry: every table of the family gets a
+        # third column x (always 0), full-schema batches carry it
+        for st in steps:
+            if st["op"] in ("create", "append", "overwrite"):
+                st["rows"] = [r + [0] for r in st["rows"]]
+            elif st["op"] == "merge_insert" and "in_place" not in st:
+                st["src"] = [r + [0] for r in st["src"]]
+        three = True
+    else:
+        three = False
     if tail_steps:
         steps.extend(tail_steps)
     if knobs:
@@ -116,6 +130,9 @@ def hist_to_scenario(hist, sid, stable, reread=False, tail_steps=None, knobs=Non
                     st[key] = [[7 if x == -1 else x for x in r] for r in st[key]]
     if knobs and "storage_version" in knobs:
         return {"id": sid, "stable": stable, "storage_version": knobs["storage_version"], "steps": steps, "knobs": knobs,
+                "model_res": [st.get("res") for st in hist[1:]]}
+    if three:
+        return {"id": sid, "stable": stable, "cols": ["id", "val", "x"], "steps": steps,
                 "model_res": [st.get("res") for st in hist[1:]]}
     return {"id": sid, "stable": stable, "steps": steps,
             "model_res": [st.get("res") for st in hist[1:]]}
